@@ -63,8 +63,9 @@ Definition tok_sig (t : token) : N * list N := (tkind t, tvalue t).
    each [tstart, tend) being the offsets of its lexeme, and each sep is the separator that the rule
    of strip_ignored_characters asks for: one SPACE between two non-punctuators or between a
    non-punctuator and a spread, nothing otherwise ([last] = the token before the first one was a
-   non-punctuator).  In particular no ignored character occurs outside the lexemes except these
-   single spaces, and none before the first or after the last token. *)
+   non-punctuator); the lexeme of every token other than a quoted string or a block string
+   contains no ignored character.  So no ignored character occurs outside string lexemes except
+   these single spaces, and none before the first or after the last token. *)
 Inductive tight : bool -> nat -> list N -> list token -> Prop :=
 | tight_eof last pos tk :
     (tkind tk =? K_EOF) = true -> tstart tk = pos -> tend tk = pos -> tight last pos [] [tk]
@@ -72,5 +73,6 @@ Inductive tight : bool -> nat -> list N -> list token -> Prop :=
     (tkind tk =? K_EOF) = false -> (tkind tk =? K_COMMENT) = false ->
     tstart tk = (pos + length (sep_before last (tkind tk)))%nat ->
     tend tk = (tstart tk + length lx)%nat -> (1 <= length lx)%nat ->
+    (tkind tk <> K_STRING -> tkind tk <> K_BLOCK_STRING -> Forall (fun c => is_ignored_char c = false) lx) ->
     tight (negb (is_punct_kind (tkind tk))) (tend tk) rest ts ->
     tight last pos (sep_before last (tkind tk) ++ lx ++ rest) (tk :: ts).
